@@ -72,9 +72,10 @@ func (w *world[T]) step(tag string) {
 		if len(m)%w.C != 0 || len(w.model[j])%w.C != 0 {
 			return
 		}
-		// sources overlapping the destination's spare capacity are excluded (other than the destination itself)
+		// (a source overlapping the destination's spare capacity is included here: the reference model is
+		// Go's append, which has copy semantics; C03 excludes that case, C12 does not)
 		if j != i && overlapsSpare(m, w.model[j]) {
-			return
+			vf.Cover("op-append-overlapping-source")
 		}
 		vf.Cover("op-append")
 		src := append([]T(nil), w.model[j]...) // Go's append has copy semantics for overlapping operands
@@ -165,4 +166,29 @@ func C12_Chain[T signal.SignalTypes]() {
 		w.step(tags[d])
 	}
 	w.compare("after-chain")
+}
+
+// C12_AppendAliased: Append between two arbitrary windows of one storage (overlap of any kind, including a source
+// that covers the destination's spare capacity, and the destination itself), compared with Go's append on the model.
+func C12_AppendAliased[T signal.SignalTypes]() {
+	C := vf.Pick("C", 1, vf.Param("MaxC", 2))
+	K := vf.Pick("K", 0, vf.Param("MaxK", 3))
+	w := &world[T]{C: C}
+	base := allocAny[T](C, K, "A")
+	mbase := contents(base)
+	w.views = append(w.views, base)
+	w.model = append(w.model, mbase)
+	w.add(base, mbase, "d", K)
+	w.add(base, mbase, "s", K)
+	dst, src := 1, 2
+	if vf.Pick("self", 0, 1) == 1 {
+		src = 1
+	}
+	if overlapsSpare(w.model[dst], w.model[src]) {
+		vf.Cover("source-overlaps-spare-capacity")
+	}
+	data := append([]T(nil), w.model[src]...)
+	w.views[dst].Append(w.views[src])
+	w.model[dst] = trim(append(w.model[dst], data...), C)
+	w.compare("after-aliased-append")
 }
